@@ -34,6 +34,8 @@ func C02(e *Env) {
 	r.Rule("R06.4", "what a resolver emits is what it records, and the resolver's result is copied field by field into output.Arg (shared with C06)", 8)
 	c03Sanitise(e)
 	r.Rule("R03.1", "argument payloads reach the generated code quoted, exported or as grammar-checked groups (shared with C03): non-string literals keep their value and type through exporter.MustExport", 14)
+	fieldProvenance(e, "R02.3")
+	r.Rule("R02.3", "field provenance: in processService, serviceCalls, serviceTags and processDecorator every field of the output value is computed from the same-named declared attribute (through the function's own helpers and locals) and reads no other attribute; no field is left unset", 18)
 	c14Groups(e)
 	c14Guards(e)
 	r.Rule("R14.8", "`!value expr` injects the Go expression as written: every capture group of the value / type / constructor grammars (pointer or address marker, import, name, selector chain, {}) is copied into the compiled expression on every path (shared with C14)", 5)
@@ -87,6 +89,8 @@ func C04(e *Env) {
 	mergeLiteralRule(e, "mergeService", "Service")
 	loopExitRule(e, "R02.4", compilerRel, "a later tag / decorator is dropped", "StepCompileServices.serviceTags", "StepCompileDecorators.Process")
 	c04Tag(e)
+	fieldProvenance(e, "R02.3")
+	r.Rule("R02.3", "tag name/priority and decorator tag/function/arguments are computed from the same-named declared attributes (field provenance, shared with C02)", 18)
 	c04More(e)
 	r.NotCovered = append(r.NotCovered,
 		"the run-time order of tagged services (priority descending, then name) and the moment decorators are applied are the runtime library's behaviour",
